@@ -477,6 +477,25 @@ func lemmaTickMonotone(intervalStart uint64, intervalsPerDay uint32, t1, t2 uint
 //@ loop 0 invariant #openCommand: i >= 1 ==> (cc != nil && cmdIndex(cc) == prevIndex && cmdYear(cc) == prevYear)
 //@ loop 0 step #joinsOwnSlot: (i >= 2 && cc == prev(cc)) ==> (index == cmdIndex(cc) && year == cmdYear(cc))
 
+// C09: the second stage of a variable-length read copies every interval's rewritten records into the result buffer.
+// Nothing may be cut off: the buffer always has room for what is copied into it.
+//@ func RewriteBuffer
+//@ trusted "unsafe: prepends the decoded epoch/nanoseconds to each variable-length record"
+//@ modifies none
+
+//@ func (*os.File).ReadAt
+//@ trusted "stdlib file read"
+//@ modifies mem:uint8
+
+//@ func (*Reader).readSecondStage
+//@ props C09
+//@ option noimplicit
+//@ loop 0 invariant true
+//@ loop 1 invariant #idx: 0 <= i && numIndexRecords == len(indexBuffer)/24
+//@ loop 2 invariant #idx: 0 <= i && numIndexRecords == len(indexBuffer)/24
+//@ loop 3 invariant #idx: 0 <= i && numIndexRecords == len(indexBuffer)/24
+//@ loop 3 invariant #fits: 0 <= rbCursor && rbCursor <= len(rb) && len(rb) == totalDatalen
+
 // C03: a write set whose data file cannot be opened (bucket removed before the crash, file creation not yet durable)
 // must surface as the error kind the start-up cleaner tolerates (wal.ReplayError: the WAL is moved aside and start-up
 // continues); any other kind makes internal/di panic at start-up.
